@@ -79,6 +79,11 @@ def _member_atoms() -> dict:
         "docx-2231": {"filename": "Bericht über 中文.docx", "filename_style": "rfc2231", "ctype": DOCX_MIME, "cte": "base64",
                       "data_hex": d},
         "docx-noext": {"filename": "report", "filename_style": "plain", "ctype": DOCX_MIME, "cte": "base64", "data_hex": d},
+        # the name and the MIME label disagree about the extractor: the file on its own (routed by its name) is the reference
+        "html-as-plain": {"filename": "page.html", "filename_style": "plain", "ctype": "text/plain", "charset": "utf-8", "cte": "base64",
+                          "data_hex": ("<html><body><p>%s</p><script>var x='Xnotxt';</script></body></html>" % _TOK["B2"]).encode().hex()},
+        "csv-as-xls": {"filename": "table.csv", "filename_style": "plain", "ctype": "application/vnd.ms-excel", "cte": "base64",
+                       "data_hex": ("%s,%s\n1,2\n" % (_TOK["C1"], _TOK["C2"])).encode().hex()},
         "txt-utf8": {"filename": "note2.txt", "filename_style": "plain", "ctype": "text/plain", "charset": "utf-8", "cte": "base64",
                      "data_hex": (_TOK["B3"] + " café €\n").encode("utf-8").hex()},
     }
@@ -107,7 +112,7 @@ DOM["inner"] = [
     dict(_I0, structure="rfc822-attachment"),
 ]
 
-ATOM_NAMES = list(ATOMS) + ["docx", "docx-octet", "docx-noname", "docx-2231", "docx-noext", "txt-utf8"]
+ATOM_NAMES = list(ATOMS) + ["docx", "docx-octet", "docx-noname", "docx-2231", "docx-noext", "txt-utf8", "html-as-plain", "csv-as-xls"]
 ATT_STRUCTS = [3, 4, 6, 7]          # mixed-alt-att, mixed-plain-att-att, mixed-mixed, rfc822-attachment
 PAIR_ALPHA = ["txt", "docx", "bin256", "noname"]
 
@@ -242,6 +247,17 @@ def all_cases(tier: str) -> list:
                         cases.append(("mbox", c))
     for sep in SEPS:
         cases.append(("mbox", {"specs": [], "sep": sep, "flb": None}))
+    # envelope sender forms of the From_ separator line: a bounce ("From MAILER-DAEMON ...") and Thunderbird ("From - ...")
+    for env in ("daemon", "dash"):
+        for n in (1, 2, 3):
+            for combo in itertools.product(MULTI_ALPHA[:3], repeat=n):
+                for sep in SEPS:
+                    for first in (None, "address"):
+                        c = {"specs": [dict(x) for x in combo], "sep": sep, "flb": None, "env": env}
+                        if first:
+                            c["env_first"] = first
+                        if _mbox_ok(c):
+                            cases.append(("mbox", c))
     for n in (2, 3):
         for combo in itertools.product(MULTI_ALPHA, repeat=n):
             for sep in SEPS:
@@ -489,6 +505,10 @@ def _opts(case) -> dict:
     o = {"separator": case.get("sep") or "standard"}
     if case.get("flb"):
         o["from_line_in_body"] = case["flb"]
+    if case.get("env"):
+        o["envelope"] = case["env"]
+    if case.get("env_first"):
+        o["envelope_first"] = case["env_first"]
     return o
 
 
@@ -772,6 +792,8 @@ def embeds(small, big) -> bool:
     if small.get("flb") and small.get("flb") != big.get("flb"):
         return False
     if small.get("sep") != "standard" and small.get("sep") != big.get("sep"):
+        return False
+    if small.get("env") and small.get("env") != big.get("env"):
         return False
     it = iter(big["specs"])
     return all(any(_spec_embeds(s, b) for b in it) for s in small["specs"])
